@@ -7,6 +7,7 @@ CONSTANTS
   FixDrift = TRUE
   WithEnv = TRUE
   FsExact = TRUE
+  EarlyVerify = FALSE
   ILen <- MCILen
 INVARIANT Invs
 CHECK_DEADLOCK FALSE
